@@ -18,7 +18,7 @@ CHECKS = {
          "DESIGN.md §2 C02"),
  "C03": ("exploration", "chain+world",
          "view-diff monitor over an enumerated (message type x attack role) matrix delivered through the real ante chain and router on forked states, cross-checked against real ABCI blocks",
-         "Every Paloma sdk.Msg type registered with a handler is discovered at run time; for each an honest instance in the name of principal B is built from a live world state and then delivered as attacks signed only by an account A without grant (foreign signer, swapped creator with the body still naming B, swapped authority, confirmation with a foreign external signature). Oracle: an accepted attack leaves B's view (everything Paloma keeps in B's name, read through exported getters) and the governance view unchanged; honest and fee-grant-delegated deliveries must be accepted (so the templates are live). Held = held on the enumerated matrix in the generated world states.",
+         "Every Paloma sdk.Msg type registered with a handler is discovered at run time; for each an honest instance in the name of principal B is built from a live world state and then delivered as attacks signed only by an account A without grant (foreign signer, swapped creator with the body still naming B, swapped authority, confirmation with a foreign external signature, a foreign message hidden behind a legitimately delegated first message of the same tx, the former creator of a token that was handed over to B). Oracle: an accepted attack leaves B's view (everything Paloma keeps in B's name, read through exported getters) and the governance view unchanged; honest and fee-grant-delegated deliveries must be accepted (so the templates are live). Held = held on the enumerated matrix in the generated world states.",
          "Exceptions the property states are exempt (fee-grant delegation, confirmations carrying B's own external signature, licences for fresh addresses); compass deployment bookkeeping and bad-signature evidence are outside the views; message types without a template are listed in the evidence.",
          "DESIGN.md §2 C03"),
  "C04": ("exploration", "chain+world",
@@ -28,7 +28,7 @@ CHECKS = {
          "DESIGN.md §2 C04"),
  "C05": ("exploration", "chain+world",
          "self-calibrating metamorphic oracle (independent compass-ABI encoder vs the code's signing bytes, field mutation by reflection) + id high-water-mark monitor over raw consensus-store scans of real-app histories",
-         "Part 1: for generated messages of all action types and batches an independent encoder builds the call the remote contract is handed; for every reflected field x 8-16 alternative values and 2-4-field mutants, a changed delivered call must change the signing bytes (global signed->delivered map also catches cross-item collisions); VerifyAgainstTX calibrates the encoder and classifies fields by the code itself. Part 2: histories of the real app (jobs, estimates with fee attachment = replace in place, evidence, retries, snapshot supersession, pruning, chain removal/re-addition): every id handed out must exceed all committed ids, live in one queue, never reappear. Held = held on the generated pairs and histories.",
+         "Part 1: for generated messages of all action types and batches an independent encoder builds the call the remote contract is handed; for every reflected field x 8-16 alternative values and 2-4-field mutants, a changed delivered call must change the signing bytes (global signed->delivered map also catches cross-item collisions); VerifyAgainstTX calibrates the encoder and classifies fields by the code itself. Part 2: histories of the real app (jobs, estimates with fee attachment = replace in place, evidence, retries, snapshot supersession, pruning, chain removal/re-addition), interleaved with direct calls of the consensus keeper's public queue API (replace with a live / just-removed / long-gone / foreign-queue / never-issued id, delete): every id handed out must exceed all committed ids, live in one queue, never reappear. Held = held on the generated pairs and histories.",
          "Collision resistance of keccak assumed; values equal as delivered (gas 0 vs 300000, nil fees vs defaults, address spellings) are not changes; UploadSmartContract only bytecode+id.",
          "DESIGN.md §2 C05"),
  "C06": ("exploration", "chain+world",
@@ -43,12 +43,12 @@ CHECKS = {
          "DESIGN.md §2 C07"),
  "C08": ("exploration", "chain+world",
          "twin executions of the same seeded history in separate processes under environment / restart / read-only-traffic / database variations with per-block digest comparison + 25-fold repeated evaluation of pure decisions on forked states",
-         "Each omnibus history is executed by 4-6 twin processes that differ only in what must not matter (every env variable the sources read - found by scanning at check time - set vs unset, TZ/GOMAXPROCS/GOGC/LANG, restarts at block boundaries, read-only traffic incl. CheckTx/Simulate between blocks, memdb vs goleveldb); per block the digests of raw txs, tx results (code, data, gas, events), block events and app hash are compared. In the base twin relayer selection, snapshot construction, attestation processing and the end-blockers are evaluated 25x on forks of the same state and write sets and return values compared. Held = no divergence on those executions.",
+         "Each omnibus history is executed by 4-6 twin processes that differ only in what must not matter (every env variable the sources read - found by scanning at check time - set vs unset, TZ/GOMAXPROCS/GOGC/LANG, restarts at block boundaries, read-only traffic incl. CheckTx/Simulate between blocks, memdb vs goleveldb; the query-serving twins also SIMULATE transactions that are never sent and collide with what the workload does for real later - same job ids with other content, the factory denom's admin handed over, tax/limit proposals only submitted, other relayer fees - so that node-local state surviving a discarded execution shows as a divergence); per block the digests of raw txs, tx results (code, data, gas, events), block events and app hash are compared. In the base twin relayer selection, snapshot construction, attestation processing and the end-blockers are evaluated 25x on forks of the same state and write sets and return values compared. Thorough tier only: one twin of every fourth group is a -race build that serves all Paloma gRPC queries and simulations from three goroutines while blocks execute; a race report whose racing access is made by Paloma code is a violation (reports inside cosmos-sdk/iavl are listed, not deciding). Held = no divergence and no such race on those executions.",
          "Harness workload generator deterministic (checked: diverging inputs with equal digests => INCONCLUSIVE); one machine/architecture; tx log strings excluded.",
          "DESIGN.md §2 C08"),
  "C09": ("exploration", "chain+world",
          "recover()/error oracle around FinalizeBlock of the real app under omnibus histories with hostile accepted values + Begin/EndBlock probing of every Paloma module on forked states at rare height classes",
-         "Seeded omnibus histories of the real application in which every sender-controlled value (fee multiplicators, gas estimates, amounts, payload sizes, proofs of every malformed shape, nonces, versions, addresses, governance-set numbers and strings) comes from hostile generators and remains only if the chain accepted the transaction. Every FinalizeBlock is wrapped in recover()+error check; every 40 blocks each Paloma module's BeginBlock/EndBlock is additionally run on throw-away forks at the next heights = 0 mod 10/50/300/303 and at 10 000 / 15 150 / 30 300 / 303 000. Held = no abort on those executions.",
+         "Seeded omnibus histories of the real application in which every sender-controlled value (fee multiplicators, gas estimates, amounts, payload sizes, proofs of every malformed shape, nonces, versions, addresses, governance-set numbers and strings) comes from hostile generators and remains only if the chain accepted the transaction. Every FinalizeBlock is wrapped in recover()+error check; every 40 blocks each Paloma module's BeginBlock/EndBlock is additionally run on throw-away forks at the next heights = 0 mod 10/50/300/303 and at 10 000 / 15 150 / 30 300 / 303 000. Scripted long-idle histories (early deliveries, a flood of > 1000 job executions nobody relays, one late delivery) take the relay-metrics purge over validators whose whole history is outside the scoring window. Held = no abort on those executions.",
          "Only accepted-transaction states; governance-set policy numbers from a plausible range; version-gate halt not exercised; stakes bounded by realistic supply.",
          "DESIGN.md §2 C09"),
  "C10": ("exploration", "chain+world",
